@@ -780,6 +780,9 @@ func privateHelperOf(c *an.Ctx, fn *ssa.Function, owners map[string]bool, depth 
 					ok = false // address taken
 					continue
 				}
+				if g == fn {
+					continue // a recursive call adds no caller
+				}
 				n++
 				caller := an.ShortName(g)
 				if i := strings.Index(caller, "$"); i > 0 {
